@@ -13,8 +13,21 @@ use model::*;
 use std::io::{BufRead, BufWriter, Write};
 use std::panic::{catch_unwind, AssertUnwindSafe};
 
+/// Performance-only settings come from the environment: the specification has no configuration variable,
+/// so one specification must accept the traces of every configuration (C12).
+fn store_config() -> (stam::Config, serde_json::Value) {
+    let mut cfg = stam::Config::default();
+    let ms: Option<usize> = std::env::var("VERIF_MILESTONE").ok().and_then(|s| s.parse().ok());
+    if let Some(ms) = ms {
+        cfg = cfg.with_milestone_interval(ms);
+    }
+    let shrink = std::env::var("VERIF_SHRINK").map(|s| s == "1").unwrap_or(false);
+    cfg = cfg.with_shrink_to_fit(shrink);
+    (cfg, serde_json::json!({"milestone": ms.map(|x| x as i64).unwrap_or(-1), "shrink": shrink}))
+}
+
 fn new_store() -> stam::AnnotationStore {
-    stam::AnnotationStore::new(stam::Config::default())
+    stam::AnnotationStore::new(store_config().0)
 }
 
 fn reset_event(cfg: &serde_json::Value) -> Event {
@@ -35,7 +48,9 @@ fn replay(input: &str, output: &str, style: IdStyle) -> std::io::Result<()> {
         }
         let ops: Vec<Op> = serde_json::from_str(line).expect("harness: behaviour line");
         let mut ctx = Ctx { store: new_store(), style };
-        serde_json::to_writer(&mut out, &reset_event(&serde_json::json!({"style": style.0})))?;
+        let mut rcfg = store_config().1;
+        rcfg["style"] = serde_json::json!(style.0);
+        serde_json::to_writer(&mut out, &reset_event(&rcfg))?;
         out.write_all(b"\n")?;
         nb += 1;
         let mut last_good: Option<(PState, Vec<PPos>)> = None;
